@@ -247,6 +247,9 @@ func genSingleMix(t *rapid.T) []prog.Instance {
 func TestC18Single(t *testing.T) {
 	t.Cleanup(cleanTraceDir)
 	rapid.Check(t, func(t *rapid.T) {
+		if vstat.OverBudget() {
+			return
+		}
 		vstat.Case()
 		insts := genSingleMix(t)
 		p := prog.GenProgram(t, insts, 3)
@@ -496,6 +499,9 @@ func (c *caseRun) indexTokens() {
 }
 
 func runRelay(t *rapid.T, tcp bool) {
+	if vstat.OverBudget() {
+		return
+	}
 	vstat.Case()
 	c := genRelay(t, tcp)
 	defer c.teardown()
